@@ -9,8 +9,10 @@ pub mod c08;
 pub mod c09;
 pub mod c10;
 pub mod c11;
+pub mod c12;
 pub mod c13;
 pub mod c14;
+pub mod c15;
 pub mod c16;
 pub mod c17;
 use crate::runner::Property;
@@ -27,11 +29,13 @@ pub fn by_id(id: &str) -> Option<Property> {
         "C09" => c09::property(),
         "C10" => c10::property(),
         "C11" => c11::property(),
+        "C12" => c12::property(),
         "C13" => c13::property(),
         "C14" => c14::property(),
+        "C15" => c15::property(),
         "C16" => c16::property(),
         "C17" => c17::property(),
         _ => return None,
     })
 }
-pub const ALL: &[&str] = &["C01", "C02", "C03", "C04", "C05", "C06", "C07", "C08", "C09", "C10", "C11", "C13", "C14", "C16", "C17"];
+pub const ALL: &[&str] = &["C01", "C02", "C03", "C04", "C05", "C06", "C07", "C08", "C09", "C10", "C11", "C12", "C13", "C14", "C15", "C16", "C17"];
